@@ -602,3 +602,7 @@ def run(chk):
     chk.guard("R04.7", "typed-constructors", ctors.check_typed_constructors, chk, F, "R04.7")
     chk.guard("R04.5", "decoder-canonical", decoder.check_decoder_canonical, chk, F)
     chk.guard("R04.6", "key-pushes", check_key_pushes, chk, F)
+    # the other size prediction: ExtData::pk_cost (what the per-context size limits and the compiler read) is the length of
+    # the same template, across the OP_16 / one-byte-push boundary of k and n (rule shared with C09)
+    from . import c09
+    chk.guard("R04.8", "pk-cost", c09.check_script_accounting, chk, F, "R04.8")
